@@ -324,6 +324,15 @@ def r7_2(ctx: Ctx) -> RuleResult:
 
 
 def r7_3(ctx: Ctx) -> RuleResult:
+    """Singular queries (RFC 9535 2.3.5.1): only name and index selectors, a bracketed list counting only when it
+    holds exactly one of them.  The per-selector body of `singular_query` is partially evaluated for every selector
+    class, and for bracketed lists of one and of two items of every class: it must go on to the next selector for
+    the allowed shapes and return False for all others."""
+    import copy as _copy
+
+    from sa.loader import FuncInfo as _FI
+    from sa.peval import Explorer
+
     rr = RuleResult("R7.3", "singular queries consist of name and index selectors only", floor=2)
     fn = ctx.repo.require_func("JSONPath.singular_query")
     loops = [n for n in fn.node.body if isinstance(n, ast.For)]
@@ -332,36 +341,75 @@ def r7_3(ctx: Ctx) -> RuleResult:
     loop = loops[0]
     var = path_of(loop.target)
     allowed = {"PropertySelector", "IndexSelector"}
-    conts = [n for n in ast.walk(loop) if isinstance(n, ast.Continue)]
-    if not conts:
-        raise AnalysisError("R7.3: no `continue` in singular_query's loop")
-    for c in conts:
-        conds = path_conditions(loop, c)
-        direct = [set(ic[1]) for t, b in conds for ic in [isinstance_classes(t)] if ic and b and ic[0] == var]
-        ok = False
-        if direct and all(d <= allowed for d in direct if d != {"ListSelector"}) and any(d <= allowed for d in direct):
-            ok = True
-        elif any(d == {"ListSelector"} for d in direct):
-            one = any(
-                isinstance(t, ast.Compare) and "len(" in ast.unparse(t.left) and isinstance(t.ops[0], ast.Eq)
-                and isinstance(t.comparators[0], ast.Constant) and t.comparators[0].value == 1 and b
-                for t, b in conds
-            )
-            inner = [set(ic[1]) for t, b in conds for ic in [isinstance_classes(t)] if ic and b and ic[0] != var]
-            ok = one and bool(inner) and all(i <= allowed for i in inner)
-        if ok:
-            rr.ok(fn.loc(c), f"`continue` only for {sorted(allowed)} (or a one-item list of them)")
+    base = ctx.repo.require_class("jsonpath.selectors.JSONPathSelector")
+    kinds = sorted(c.name for c in ctx.repo.subclasses(base, strict=True))
+    if "ListSelector" not in kinds or not allowed <= set(kinds):
+        raise AnalysisError("R7.3: selector classes not found")
+    shell = _copy.copy(fn.node)
+    shell.body = loop.body
+    per_sel = _FI(qualname=fn.qualname, name=fn.name, node=shell, module=fn.module, cls=fn.cls)
+
+    def subclass(k: str, names: List[str]) -> bool:
+        kc = ctx.repo.require_class(f"jsonpath.selectors.{k}")
+        return any(ctx.repo.get_class(n) is not None and ctx.repo.is_subclass(kc.qualname, ctx.repo.get_class(n).qualname) for n in names)  # type: ignore[union-attr]
+
+    def run(k: str, n_items: int, k2: Optional[str]) -> str:
+        item_vars: Set[str] = set()
+        for g in ast.walk(shell):
+            if isinstance(g, ast.comprehension) and (path_of(g.iter) or "").startswith(f"{var}.items"):
+                item_vars |= {x.id for x in ast.walk(g.target) if isinstance(x, ast.Name)}
+
+        def oracle(t: ast.expr, env: dict) -> Optional[bool]:  # type: ignore[type-arg]
+            ic = isinstance_classes(t)
+            if ic is not None:
+                subj = ic[0]
+                if subj == var:
+                    return subclass(k, ic[1])
+                if k2 is not None and (subj.startswith(f"{var}.items[") or subj in item_vars):
+                    return subclass(k2, ic[1])
+                return None
+            if isinstance(t, ast.Compare) and len(t.ops) == 1 and isinstance(t.left, ast.Call) and callee_name(t.left) == "len" \
+                    and path_of(t.left.args[0]) == f"{var}.items" and isinstance(t.comparators[0], ast.Constant):
+                c = t.comparators[0].value
+                return {ast.Eq: n_items == c, ast.NotEq: n_items != c, ast.Gt: n_items > c, ast.GtE: n_items >= c,
+                        ast.Lt: n_items < c, ast.LtE: n_items <= c}.get(type(t.ops[0]))
+            if isinstance(t, ast.Call) and callee_name(t) in ("all", "any") and len(t.args) == 1 and isinstance(t.args[0], (ast.GeneratorExp, ast.ListComp)) \
+                    and k2 is not None:
+                g = t.args[0].generators[0]
+                if (path_of(g.iter) or "") == f"{var}.items" and not g.ifs:
+                    return oracle(t.args[0].elt, env)  # every item has the same class
+            return None
+
+        ex = Explorer(ctx.folder, per_sel, oracle)
+        outs = ex.run({})
+        goes_on = [o for o in outs if o[0] in ("continue", "fall")]
+        refuses = [o for o in outs if o[0] == "return" and o[2] is False]
+        other = [o for o in outs if o not in goes_on and o not in refuses]
+        if other or (goes_on and refuses) or not outs:
+            return "undecided"
+        return "accept" if goes_on else "refuse"
+
+    cases = [(k, 0, None) for k in kinds if k != "ListSelector"]
+    cases += [("ListSelector", n, k2) for n in (1, 2) for k2 in kinds if k2 != "ListSelector"]
+    for k, n, k2 in cases:
+        want = "accept" if (k in allowed or (k == "ListSelector" and n == 1 and k2 in allowed)) else "refuse"
+        got = run(k, n, k2)
+        shape = k if k != "ListSelector" else f"a bracketed list of {n} x {k2}"
+        if got == want:
+            rr.ok(fn.loc(loop), f"singular_query: {shape} -> {want}")
+        elif got == "undecided":
+            raise AnalysisError(f"R7.3: the decision of singular_query for {shape} cannot be folded")
         else:
-            rr.bad(fn, c, "a selector other than a name or index selector is accepted as part of a singular query",
-                   construct="continue under " + "; ".join(ast.unparse(t) for t, b in conds))
-    # fall-through of the body returns False; after the loop True
-    last = loop.body[-1]
+            rr.bad(fn, loop, f"singular_query {got}s {shape}: RFC 9535 allows only name and index selectors in a singular "
+                   "query (a bracketed list only with exactly one of them)" + (
+                       "; a query selecting several nodes is then accepted as a comparison operand" if got == "accept" else ""),
+                   construct=f"singular_query {got}s {shape}")
+    # after the loop True
     after = fn.node.body[fn.node.body.index(loop) + 1:]
-    if isinstance(last, ast.Return) and isinstance(last.value, ast.Constant) and last.value.value is False and after and isinstance(
-        after[0], ast.Return) and isinstance(after[0].value, ast.Constant) and after[0].value.value is True:
-        rr.ok(fn.loc(), "any other selector returns False; True only after the loop")
+    if len(after) == 1 and isinstance(after[0], ast.Return) and isinstance(after[0].value, ast.Constant) and after[0].value.value is True:
+        rr.ok(fn.loc(), "True only after every selector has been accepted")
     else:
-        rr.bad(fn, fn.node, "singular_query must return False for any other selector and True only after the loop",
+        rr.bad(fn, fn.node, "singular_query must return True only after the loop over the selectors",
                construct="singular_query returns")
     return rr
 
